@@ -330,8 +330,8 @@ class Unit:
             else:
                 out.append('    pub fn %s(&mut self, value: %s) -> (r: &mut Self)' % (fname, fty))
                 val = 'Some(value)'
-            others = ''.join(', final(self).%s == old(self).%s' % (g[0], g[0]) for g in parsed if g[0] != fname)
-            out.append('        ensures final(self).%s == %s%s, *final(r) == *final(self),' % (fname, val, others))
+            others = ''.join(', r.%s == old(self).%s' % (g[0], g[0]) for g in parsed if g[0] != fname)
+            out.append('        ensures r.%s == %s%s, *final(self) == *final(r),' % (fname, val, others))
             out.append('    { self.%s = %s; self }' % (fname, val))
         mand = [f[0] for f in parsed if not f[2]]
         ok_cond = ' && '.join((['Self::validate_ok(*self)'] if has_validate else []) + ['self.%s is Some' % f for f in mand]) or 'true'
